@@ -8,6 +8,7 @@ import LzModel.Bitset
 import LzModel.Json
 import LzModel.BitsetW
 import LzModel.BytesW
+import LzModel.CheckSA
 namespace LZ.Driver
 open LZ
 
@@ -255,6 +256,7 @@ def stepStateless (ws : List String) : Option String :=
   match ws with
   | ["sort", h] => some (showNats (saSpec (unhex h)))
   | ["checksa", h, sa] => some (toString (checkSA (unhex h) (natList sa)))
+  | ["checksalin", h, sa] => some (toString (checkSALin (unhex h).toArray (natList sa).toArray))
   | ["invert", sa] => some (showNats (invertSA (natList sa).toArray).toList)
   | ["lcp", h] =>
     let t := unhex h
